@@ -326,6 +326,10 @@ func NewWorld(spec Spec) *World {
 			pod.Namespace = "kube-system"
 		}
 		pod.Spec.PriorityClassName = className(spec.TClass[t.ID])
+		if !t.Preemptable {
+			// without the annotation a pod counts as preemptable (GetPodPreemptable)
+			pod.Annotations["volcano.sh/preemptable"] = "false"
+		}
 		ti := api.NewTaskInfo(pod)
 		sw.Tasks[t.ID] = ti
 		sw.TSpec[t.ID] = t
@@ -551,4 +555,4 @@ func (w *World) EncFinal() []int64 {
 	return out
 }
 
-var _ = v1.NamespaceSystem
+var _ = v1.NamespaceDefault
